@@ -139,14 +139,22 @@ def mixKeyAndHash (S : Suite) (st : Sym) (data : Bytes) : Sym :=
   let st1 := mixHash S { st with ck := o.1 } o.2.1
   { st1 with cs := st1.cs.set key 0, k := some key }
 
-/-- `encrypt_and_mix_hash(plaintext, out)` with `out.len() = cap`. -/
+/-- The bytes of an `ok` outcome, `[]` otherwise. -/
+def okBytes : Res Bytes → Bytes
+  | .ok b => b
+  | _ => []
+
+/-- `encrypt_and_mix_hash(plaintext, out)` with `out.len() = cap`.
+    Returns the outcome (the bytes written), the successor state and the events. -/
 def encryptAndMixHash (S : Suite) (st : Sym) (pt : Bytes) (cap : Nat) :
     Res Bytes × Sym × List Event :=
   if st.hasKey then
-    match st.cs.encryptAd S st.h pt cap with
-    | (.ok ct, cs', ev) => (.ok ct, mixHash S { st with cs := cs' } ct, ev)
-    | (.err e, cs', ev) => (.err e, { st with cs := cs' }, ev)
-    | (.panic p, cs', ev) => (.panic p, { st with cs := cs' }, ev)
+    let r := st.cs.encryptAd S st.h pt cap
+    (r.1,
+     (match r.1 with
+      | .ok ct => mixHash S { st with cs := r.2.1 } ct
+      | _ => { st with cs := r.2.1 }),
+     r.2.2)
   else if cap < pt.length then (.panic "copy_slices!(plaintext, out)", st, [])
   else (.ok pt, mixHash S st pt, [])
 
@@ -155,10 +163,12 @@ def encryptAndMixHash (S : Suite) (st : Sym) (pt : Bytes) (cap : Nat) :
 def decryptAndMixHash (S : Suite) (st : Sym) (data : Bytes) (cap : Nat) :
     Res Bytes × Sym × Bytes × List Event :=
   if st.hasKey then
-    match st.cs.decryptAd S st.h data cap with
-    | (.ok p, cs', buf, ev) => (.ok p, mixHash S { st with cs := cs' } data, buf, ev)
-    | (.err e, cs', buf, ev) => (.err e, { st with cs := cs' }, buf, ev)
-    | (.panic p, cs', buf, ev) => (.panic p, { st with cs := cs' }, buf, ev)
+    let r := st.cs.decryptAd S st.h data cap
+    (r.1,
+     (match r.1 with
+      | .ok _ => mixHash S { st with cs := r.2.1 } data
+      | _ => { st with cs := r.2.1 }),
+     r.2.2.1, r.2.2.2)
   else if cap < data.length then (.err .decrypt, st, [], [])
   else (.ok data, mixHash S st data, data, [])
 
